@@ -52,6 +52,10 @@ func (lc *LogicContext) IsPayloadTypeOrigin(t int) bool {
 }
 
 func (lc *LogicContext) IsAudioUnpackable() bool {
+	// 注意，audioPayloadTypeBase的零值是 base.AvPacketPtG711U ，sdp中没有音频时不能认为存在g711u的音频
+	if !lc.hasAudio {
+		return false
+	}
 	return (lc.audioPayloadTypeBase == base.AvPacketPtAac && lc.Asc != nil) || (lc.audioPayloadTypeBase == base.AvPacketPtG711A) || (lc.audioPayloadTypeBase == base.AvPacketPtG711U) || (lc.audioPayloadTypeBase == base.AvPacketPtOpus)
 }
 
